@@ -22,7 +22,8 @@ class Contract:
                  raises=None, loops=(), result=None, serves=(), yields=None,
                  env=None, note='', name=None, self_obj=None, cases=None,
                  budget=None, skip_self=False, native=None,
-                 native_scope=None, always_raises=False, track_pulls=None):
+                 native_scope=None, always_raises=False, track_pulls=None,
+                 track_slices=False):
         self.target = target
         self.params = params or {}
         self.requires = list(requires)
@@ -48,6 +49,7 @@ class Contract:
             self.native_scope = native_scope
         self.always_raises = always_raises
         self.track_pulls = track_pulls
+        self.track_slices = track_slices
 
     def param_order(self, fn):
         a = fn.node.args
@@ -286,6 +288,26 @@ def _run_path(world, c, params, tag, it, path, rep, first):
         it.ghost_vars['SRC'] = src
         it.yield_hooks.append(lambda it_, v, pulls=pulls, src=src: setattr(
             pulls, 'seq', S.seq_append(pulls.seq, SInt(src.pos))))
+    if c.track_slices:
+        # ghost: offset and length of every yielded sequence (slices of a
+        # list): yoff[k], ylen[k]; -1 for a yielded non-sequence
+        def mk():
+            return MList(SSeq(z3.IntVal(0), z3.K(z3.IntSort(), z3.IntVal(0)),
+                              TInt, kind='list'))
+        yoff, ylen = mk(), mk()
+        it.ghost_vars['yoff'], it.ghost_vars['ylen'] = yoff, ylen
+
+        def hook(it_, v, yoff=yoff, ylen=ylen):
+            q = v.seq if isinstance(v, MList) else v
+            if isinstance(q, SSeq):
+                o, n = SInt(z3.simplify(q.off)), SInt(z3.simplify(q.length))
+            elif isinstance(q, (tuple, list)):
+                o, n = SInt(z3.IntVal(-1)), SInt(z3.IntVal(len(q)))
+            else:
+                o, n = SInt(z3.IntVal(-1)), SInt(z3.IntVal(-1))
+            yoff.seq = S.seq_append(yoff.seq, o)
+            ylen.seq = S.seq_append(ylen.seq, n)
+        it.yield_hooks.append(hook)
     old = Frame(module=c.module)
     old.vars.update(fr.vars)
     for nm, v in list(fr.vars.items()) + [
